@@ -15,6 +15,7 @@ pub fn main() {
         // level-2 scenarios on the real curves (replay_real only: they need the real blst)
         std::process::exit(match args[2].as_str() {
             "msm-short-scalars" => vk_curves::c12::level2::scenario_short_scalars(),
+            "decode-offsubgroup" => vk_curves::witness::decode_offsubgroup(args.get(3).map(|s| s.as_str()).unwrap_or("g1p")),
             other => {
                 println!("unknown scenario {other}");
                 4
